@@ -431,6 +431,8 @@ fn subtag_roundtrips(ctx: &Ctx, rep: &mut Report) {
         (Box::new(ByteStrings::new("E4.languages.5-8", vec![b'a', b'M', b'z'], 5, 8)), "language"),
         (Box::new(ByteStrings::new("E4.variants.5-8", vec![b'a', b'Z', b'0', b'9'], 5, 8)), "variant"),
         (Box::new(ByteStrings::new("E4.variants.4", vec![b'a', b'Z', b'0', b'9', b'5', b'm'], 4, 4)), "variant"),
+        (Box::new(ListSpace { label: "E4.special_words.language".into(), items: special_word_strings(), what: "special-cased words with affixes, as languages".into() }), "language"),
+        (Box::new(ListSpace { label: "E4.special_words.variant".into(), items: special_word_strings(), what: "special-cased words with affixes, as variants".into() }), "variant"),
     ];
     for (sp, kind) in spaces.drain(..) {
         let st = run_space(ctx, sp.as_ref(), 1 << 12, &|b, l| {
@@ -463,6 +465,19 @@ fn subtag_roundtrips(ctx: &Ctx, rep: &mut Report) {
         rep.distinct_nontrivial += st.local.nontrivial;
     }
     rep.collector = coll;
+}
+
+/// replay of a "canonical extension string rejected" finding of the from_parts domain
+pub fn replay_ext_string(b: &[u8], l: &mut Local, coll: &Collector) {
+    let Ok(s) = std::str::from_utf8(b) else { return };
+    let Some(ext) = s.strip_prefix("und-") else { return };
+    if rm::check_canonical_locale_string(s).is_err() {
+        return;
+    }
+    match guard(|| ExtensionsMap::from_str(ext)) {
+        Out::Ok(_) => {}
+        o => coll.push(l.order, Violation { sub: "c05.extensions", class: "ExtensionsMap::from_str rejects a canonical extension string".into(), case: Case::Input(b.to_vec()), expected: format!("Ok({})", ext), observed: o.brief(|x| x.to_string()) }),
+    }
 }
 
 pub fn replay_subtag_rt(b: &[u8], l: &mut Local, coll: &Collector) {
